@@ -196,7 +196,7 @@ package iparser
 //@   requires g != nil && ctx != nil
 //@   ghost handed int = 0
 //@   oncall base.StringHolder.AcceptString
-//@     assert [C01] value: handed == 0 && arg0 == strTrimF(ctxText(ctx.BaseParserRuleContext), "\"")
+//@     assert [C01,C03] value: handed == 0 && arg0 == strTrimF(ctxText(ctx.BaseParserRuleContext), "\"")
 //@     after handed := handed + 1
 //@   ensures [C01] once: old(len(g.ParseErrors)) == 0 ==> handed == 1
 
@@ -260,6 +260,15 @@ package iparser
 //@   requires g != nil
 //@   ensures [C02] attached: old(len(g.ParseErrors)) == 0 ==> entity.RuleContent == ruleContent
 //@   modifies base.RuleEntity.RuleContent
+
+//@ func (*GengineParserListener).ExitStatements
+//@   props C02
+//@   requires g != nil
+//@   ghost handed int = 0
+//@   oncall base.StatementsHolder.AcceptStatements
+//@     assert [C02] block: handed == 0 && arg0 == statements
+//@     after handed := handed + 1
+//@   ensures [C02] once: old(len(g.ParseErrors)) == 0 ==> handed == 1
 
 //@ func (*GengineParserListener).ExitStatement
 //@   props C02
